@@ -55,8 +55,16 @@ def run(ctx):
     c06.suffix_rule(dep(ctx, "C05", "C06"))
     c06.accessor_rule(dep(ctx, "C05", "C06"))
     # "the output bytes" are exactly this run's rows: the mapped file is truncated and sized before mapping
-    from . import c17
+    from . import c17, c15
     c17.open_rules(dep(ctx, "C05", "C17"))
+    # identical bytes for every thread count incl. the CLI default: at least one worker is always spawned
+    fcli = ctx.view(c15.CLI, c15.UNIT)
+    if fcli is not None:
+        c15.flow_rule(dep(ctx, "C05", "C15"), fcli)
+    # fixed-width rows (and hence row offsets) need finite values: divisor guard of the per-record vector
+    fo = ctx.view(ONE)
+    if fo is not None:
+        acc_family(dep(ctx, "C05", "C04"), "C04.A", fo, "composition::oligo::vectorise_one", ("param", param_index(fo, "seq")), SF("norm"))
 
 
 def reader_ownership(ctx, rule):
